@@ -58,6 +58,7 @@ pub struct Agg {
     pub samples: Vec<Value>,
     pub micros_total: u64,
     pub micros_max: u64,
+    pub run_micros_max: u64,
     pub in_size_max: usize,
     pub by_family: BTreeMap<String, u64>,
     pub by_repr: BTreeMap<String, u64>,
@@ -83,7 +84,9 @@ fn bump(m: &mut BTreeMap<String, u64>, k: &str) {
 
 fn family(group: &str) -> String {
     let head: String = group.chars().take_while(|c| c.is_ascii_alphabetic()).collect();
-    let kind = if group.contains("/c") {
+    let kind = if group.starts_with('W') {
+        "space-group-witness"
+    } else if group.contains("/c") {
         "cover"
     } else if group.contains("/fuc") {
         "fuc"
@@ -121,6 +124,7 @@ impl Agg {
         self.evaluations += 1;
         self.micros_total += rec.micros;
         self.micros_max = self.micros_max.max(rec.micros);
+        self.run_micros_max = self.run_micros_max.max(rec.run_micros);
         if rec.status != "ran" {
             let reason = rec.excluded_reason.split(':').next().unwrap_or("").to_string();
             bump(&mut self.excluded, &reason);
